@@ -424,6 +424,19 @@ def check(run: Run) -> None:
         seen_sig.add(key)
         run.report(sig, {"ops": [{"op": "evaluate", **desc}]})
 
+    # sizeof of a type whose name has several words (recorded finding: the evaluator accepts exactly one token between the parentheses)
+    from dissect.cstruct import cstruct as _cstruct
+    from dissect.cstruct.expression import Expression as _Expression
+    for text, want in [("sizeof(unsigned int)", 4), ("sizeof(unsigned long long) * 2", 16), ("1 + sizeof(signed char)", 2), ("sizeof(unsigned  short)", 2)]:
+        cs_ = _cstruct()
+        try:
+            got = _Expression(cs_, text).evaluate()
+        except Exception as e:  # noqa: BLE001
+            got = f"{type(e).__name__}: {e}"
+        if got != want:
+            sig = "C10/sizeof-multi-word-type" if isinstance(got, str) and got.startswith("ExpressionParserError: Invalid sizeof operation") else "C10/other"
+            run.report(sig, {"ops": [{"op": "evaluate", "expression": text, "observed": got, "expected": want}]})
+
     explained = {id(c) for c, _ in failures}
     unexplained = [c for c in mism if id(c) not in explained]
     if unexplained:
